@@ -1412,7 +1412,22 @@ class Cap(object):
         fn = self.prog.fn(cn) if cn else None
         if fn is not None and self.inline and self.depth < self.MAX_INLINE and fn.cfg is not None and not self.no_inline(fn):
             return self.inline_call(fn, n, vals, st)
-        # unknown / external / dispatch: no effect on tracked state; fresh result
+        # unknown / external / dispatch: fresh result; a buffer handed over through a pointer to non-const may have been
+        # rewritten (its string length and terminator are no longer known)
+        from .models import PURE_LIBC, MESSAGE_FUNCS
+        for ai_, (a, v) in enumerate(zip(argn, vals)):
+            if v[0] == "p" and cn not in PURE_LIBC and cn not in MESSAGE_FUNCS:
+                tt = (a.get("tc") or a.get("t") or "")
+                if fn is not None and fn.body is not None and not self.may_write_through(fn, ai_):
+                    continue
+                if ai_ in self.READ_ONLY_ARGS.get(cn, ()) or (cn in self.READ_ONLY_FROM and ai_ >= self.READ_ONLY_FROM[cn]):
+                    continue
+                if not re.search(r"\bconst\b[^*]*\*\s*(const)?\s*$", tt) and not re.match(r"\s*const\b", tt):
+                    r_ = st.regions.get(v[1])
+                    if r_ is not None and r_.kind in ("heap", "local"):
+                        self.forget_cells(st, v[1])
+                        r_.slen, r_.nul = None, None
+                        r_.wver += 1
         for a, v in zip(argn, vals):
             sa = X.strip(a)
             if sa.get("k") == "un" and sa.get("op") == "&":
@@ -1431,6 +1446,114 @@ class Cap(object):
 
     def summary_mode(self, cn):
         return False
+
+    # positions of a libc call through which the pointee is only read
+    READ_ONLY_ARGS = {"memcpy": (1,), "memmove": (1,), "strcpy": (1,), "strncpy": (1,), "strcat": (1,), "strncat": (1,),
+                      "strdup": (0,), "strndup": (0,), "fputs": (0,), "fwrite": (0,), "write": (1,), "send": (1,), "puts": (0,),
+                      "__builtin___memcpy_chk": (1,), "__builtin___memmove_chk": (1,), "__builtin___strcpy_chk": (1,),
+                      "__builtin___strncpy_chk": (1,), "__builtin___strcat_chk": (1,), "__builtin___strncat_chk": (1,),
+                      "__builtin_memcpy": (1,), "__builtin_strcpy": (1,), "open": (0,), "fopen": (0, 1), "stat": (0,),
+                      "lstat": (0,), "access": (0,), "unlink": (0,), "remove": (0,), "opendir": (0,), "popen": (0, 1), "system": (0,),
+                      "getprotobyname": (0,), "getservbyname": (0, 1), "gethostbyname": (0,), "dlopen": (0,), "dlsym": (1,),
+                      "regcomp": (1,), "pcre_compile": (0,), "inet_addr": (0,), "setenv": (0, 1), "chdir": (0,)}
+    READ_ONLY_FROM = {"printf": 0, "fprintf": 1, "snprintf": 2, "sprintf": 1, "__builtin___snprintf_chk": 4, "__builtin___sprintf_chk": 3,
+                      "__builtin___fprintf_chk": 2, "__builtin___printf_chk": 1, "syslog": 1}
+
+    def may_write_through(self, fn, j):
+        """May fn (a libast function that is not being inlined) store through its pointer parameter j, or let the pointer
+        escape?  A may-analysis over every use of the parameter and of the locals it is copied to: only reads, tests,
+        read-only libc positions and callees for which the same holds are harmless."""
+        from .models import PURE_LIBC, MESSAGE_FUNCS
+        memo = self.__dict__.setdefault("_mw", {})
+        key = (fn.name, j)
+        if key in memo:
+            return memo[key]
+        memo[key] = True          # recursion: assume the worst
+        if fn.body is None or j >= len(fn.params):
+            return True
+        tracked = {fn.params[j]["d"]}
+        res = False
+        changed = True
+        while changed and not res:
+            changed = False
+            for x in walk(fn.body):
+                if res:
+                    break
+                if x.get("k") != "ref" or x.get("d") not in tracked:
+                    continue
+                cur = x
+                while True:
+                    p = fn.parent.get(cur["i"])
+                    if p is None:
+                        break
+                    k = p.get("k")
+                    if k in ("paren", "cast", "icast") or (k == "bin" and p.get("op") in ("+", "-") and p.get("tp")) or \
+                            (k == "cond" and p["ch"][0] is not cur) or (k == "bin" and p.get("op") == ","):
+                        cur = p
+                        continue
+                    break
+                if p is None:
+                    continue
+                k = p.get("k")
+                if (k == "un" and p.get("op") == "*") or (k == "index" and p["ch"][0] is cur) or (k == "member" and p.get("arrow")):
+                    lv = p
+                    while True:
+                        q = fn.parent.get(lv["i"])
+                        if q is not None and (q.get("k") in ("paren",) or (q.get("k") == "member" and not q.get("arrow")) or
+                                              (q.get("k") == "index" and q["ch"][0] is lv and not lv.get("tp"))):
+                            lv = q
+                            continue
+                        break
+                    if q is None:
+                        continue
+                    if (q.get("k") == "assign" and q["ch"][0] is lv) or (q.get("k") == "un" and q.get("op") in ("++", "--", "&")):
+                        res = True
+                    # otherwise a read; a pointer loaded through the parameter (p->s) designates another object
+                    continue
+                if k == "assign":
+                    if p["ch"][0] is cur:
+                        continue          # the parameter itself is re-pointed / advanced
+                    l = X.strip(p["ch"][0])
+                    if l.get("k") == "ref" and l.get("rk") in ("local", "param") and p.get("op") == "=":
+                        if l["d"] not in tracked:
+                            tracked.add(l["d"])
+                            changed = True
+                        continue
+                    res = True
+                    continue
+                if k == "decl":
+                    for dcl in p.get("decls", ()):
+                        if dcl.get("init") is cur and dcl["d"] not in tracked:
+                            tracked.add(dcl["d"])
+                            changed = True
+                    continue
+                if k == "un" and p.get("op") in ("++", "--", "!"):
+                    continue
+                if k == "bin" and p.get("op") in ("==", "!=", "<", ">", "<=", ">=", "&&", "||", "-"):
+                    continue
+                if k in ("if", "while", "for", "do", "cond", "switch", "block", "compound", "exprstmt"):
+                    continue
+                if k == "call":
+                    if p["ch"][0] is cur:
+                        res = True
+                        continue
+                    idx = [i_ for i_, a_ in enumerate(p["ch"][1:]) if a_ is cur]
+                    cn = X.callee_name(p)
+                    if not idx or cn is None:
+                        res = True
+                        continue
+                    ai = idx[0]
+                    if cn in PURE_LIBC or cn in MESSAGE_FUNCS or ai in self.READ_ONLY_ARGS.get(cn, ()) or \
+                            (cn in self.READ_ONLY_FROM and ai >= self.READ_ONLY_FROM[cn]):
+                        continue
+                    g = self.prog.fn(cn)
+                    if g is not None and not self.may_write_through(g, ai):
+                        continue
+                    res = True
+                    continue
+                res = True
+        memo[key] = res
+        return res
 
     def no_inline(self, fn):
         return len(fn.nodes) > 1500 or fn.name.startswith("libast_") or fn.name.startswith("spifmem_")
